@@ -7,6 +7,9 @@
 import Verif.Lemmas.History
 import Verif.Model.RuleTable
 import Verif.Gen.RuleFields
+import Verif.Model.ParserStaticsTable
+import Verif.Gen.ParserStatics
+import Verif.Lemmas.StaticsHistory
 namespace Verif.Props.C13
 open Verif.Model.Engine
 variable {τ : Type}
@@ -85,5 +88,92 @@ theorem no_start_no_state : (rows.filter fun r => isRule r && !r.hasStart && !r.
 
 /-- All 46+ rule classes are in the table (a rule file the translator cannot read is an error). -/
 theorem table_covers_rules : 46 ≤ (rows.filter isRule).length := by decide +kernel
+
+end Verif.Props.C13
+
+/-! ### Code side: statics of the parser and of the application shell
+
+`Verif.Gen.ParserStatics.rows` is regenerated from the sources on every run: one row per class-level /
+module-level mutable binding or written class attribute / module global, and per instance attribute of
+the long-lived objects (tokenizer, parse properties, plug-in manager, extension manager, file-scan helper,
+application object, API object, parser loggers, extensions …). -/
+namespace Verif.Props.C13
+open Verif.Model.ParserStaticsTable Verif.Gen.ParserStatics
+open Verif.Lemmas.StaticsHistory
+
+/-- Every piece of long-lived parser / shell state is constant while documents are processed, or is
+re-bound unconditionally at the start of every per-document entry function, or is one of the reviewed
+baseline exceptions (with exactly the reviewed set of writers). -/
+theorem statics_reset :
+    ∀ r ∈ rows, r.constant = true ∨ r.resetOnDocPath = true ∨ r.key ∈ Baseline.exceptions := by
+  decide +kernel
+
+/-- The statics that are written on the per-document path without a per-document reset are exactly the
+reviewed baseline — nothing new, nothing dropped, no writer added or removed. -/
+theorem statics_exceptions_pinned : exceptionKeys rows = Baseline.exceptions := by decide +kernel
+
+/-- The statics that are re-initialised at the start of every document are exactly the reviewed list: a reset that
+is dropped, made conditional, or moved behind the first use of the state (e.g. `pragma_lines = {}` moved from the
+start of the block pass to its end) removes an entry. -/
+theorem statics_resets_pinned : resetIds rows = Baseline.resetOnDocPath := by decide +kernel
+
+/-- The statics written by configuration-time code only are exactly the reviewed list (a write that moves
+onto the per-document path, or a new configuration-time writer, changes it). -/
+theorem statics_config_pinned : configKeys rows = Baseline.configurationWritten := by decide +kernel
+
+/-- The generated table is internally consistent (`constant` ⇔ no writer on the per-document path). -/
+theorem statics_wellFormed : rows.all Row.wellFormed = true := by decide +kernel
+
+/-- Coverage: the table is not empty, the owners the property names are present, all of them are analysed
+as long-lived objects, and the application reaches the per-document entry functions only through the
+reviewed call sites of `FileScanHelper`. -/
+theorem statics_coverage :
+    150 ≤ rows.length ∧ Baseline.keyOwners.all ((owners rows).contains ·) = true ∧
+    (["TokenizedMarkdown", "ParseBlockPassProperties", "PluginManager", "ExtensionManager", "FileScanHelper",
+      "PyMarkdownLint", "PyMarkdownApi", "ParserLogger"].all (longLived.contains ·)) = true ∧
+    Baseline.entryCallers.all (entryCallers.contains ·) = true := by
+  decide +kernel
+
+/-- Non-vacuity: the statics the property names are in the table and ARE reset per document (so a dropped
+reset changes a row that exists). -/
+example : ("ParseBlockPassProperties", "pragma_lines") ∈ resetIds rows ∧
+    ("LinkParseHelper", "__link_definitions") ∈ resetIds rows ∧
+    ("InlineHandlerHelper", "__inline_character_handlers") ∈ resetIds rows ∧
+    ("EmphasisHelper", "__inline_emphasis") ∈ resetIds rows ∧
+    ("PluginManager", "__document_pragmas") ∈ resetIds rows ∧
+    ("PluginManager", "__document_pragma_ranges") ∈ resetIds rows ∧
+    ("TokenizedMarkdown", "__token_stack") ∈ resetIds rows ∧
+    ("TokenizedMarkdown", "__tokenized_document") ∈ resetIds rows := by decide +kernel
+
+/-- What the classification buys: take the table's keys as the state space of one process, the rows'
+classification as the three key sets, and ANY per-document body that (a) leaves the constant keys alone and
+(b) whose output does not read the exception keys.  Then the output for a document after any history of
+documents equals its output from the initial state.  (a) and (b) are the reviewed arguments of the
+baseline, cross-checked dynamically by the state snapshots of `tools/props/c13.py`; that the three sets
+cover every key is `statics_reset`. -/
+def tableShell {V D O : Type} (init : {k // k ∈ rows.map Row.id} → V)
+    (body : ({k // k ∈ rows.map Row.id} → V) → D → ({k // k ∈ rows.map Row.id} → V) × O) :
+    Shell {k // k ∈ rows.map Row.id} V D O :=
+  { constK := (rows.map Row.id).attach.filter fun k => (rows.filter (·.constant)).map Row.id |>.contains k.1
+    resetK := (rows.map Row.id).attach.filter fun k => (rows.filter (·.resetOnDocPath)).map Row.id |>.contains k.1
+    excK := (rows.map Row.id).attach.filter fun k => (rows.filter Row.needsException).map Row.id |>.contains k.1
+    init := init, body := body }
+
+theorem tableShell_covered {V D O : Type} (init) (body) : (tableShell (V := V) (D := D) (O := O) init body).Covered := by
+  intro ⟨k, hk⟩
+  simp only [tableShell, List.mem_filter, List.mem_attach, true_and, List.contains_iff_mem, List.mem_map]
+  obtain ⟨r, hr, rfl⟩ := List.mem_map.mp hk
+  by_cases hc : r.constant = true
+  · exact Or.inl ⟨r, ⟨hr, hc⟩, rfl⟩
+  · by_cases hd : r.resetOnDocPath = true
+    · exact Or.inr (Or.inl ⟨r, ⟨hr, hd⟩, rfl⟩)
+    · exact Or.inr (Or.inr ⟨r, ⟨hr, by simp [Row.needsException, hc, hd]⟩, rfl⟩)
+
+theorem parser_state_history_free {V D O : Type} (init) (body)
+    (hconst : (tableShell (V := V) (D := D) (O := O) init body).PreservesConst)
+    (hread : (tableShell (V := V) (D := D) (O := O) init body).OutputIgnores)
+    (s₀ : {k // k ∈ rows.map Row.id} → V) (history : List D) (d : D) :
+    ((tableShell init body).doc ((tableShell init body).after s₀ history) d).2 = ((tableShell init body).doc s₀ d).2 :=
+  Shell.doc_history_free _ (tableShell_covered init body) hconst hread s₀ history d
 
 end Verif.Props.C13
